@@ -149,3 +149,12 @@ Qed.
 Ltac guard2 c1 c2 :=
   let E1 := fresh "E" in let E2 := fresh "E" in
   destruct c1 eqn:E1; destruct c2 eqn:E2; grd; try lia; try reflexivity.
+
+(** when a tie does not close: print the remaining goals -- each is a path on which the regenerated program and the
+    Model differ, its hypotheses are the path condition (py/symsearch.py solves them for a concrete input) *)
+Ltac dump_residual :=
+  idtac "RESIDUAL";
+  repeat match goal with
+         | H : ?t |- _ => lazymatch type of t with Prop => idtac "HYP" t; clear H | _ => fail end
+         end;
+  match goal with |- ?g => idtac "GOAL" g end.
